@@ -16,7 +16,7 @@ fn main() {
     }
     let args: Vec<String> = std::env::args().collect();
     let mut rep = Report::new();
-    let rt = tokio::runtime::Builder::new_multi_thread().worker_threads(4).enable_all().build().unwrap();
+    let rt = tokio::runtime::Builder::new_multi_thread().worker_threads(8).enable_all().build().unwrap();
     match args[1].as_str() {
         "reads" => rt.block_on(reads::reads_cmd(&mut rep, &args[2], args[3].parse().unwrap())),
         "replicator" => rt.block_on(replicator::replicator_cmd(&mut rep, &args[2])),
